@@ -330,7 +330,7 @@ fn blank_token_check<const N: usize>(run: usize) {
 }
 
 #[kani::proof]
-#[kani::unwind(262)]
+#[kani::unwind(302)]
 fn lex_blank_token_contract_bounded() { blank_token_check::<300>(kani::any()); }
 
 /// quick tier: the run lengths around the 255 split of the u8 counter
